@@ -93,7 +93,7 @@ func runKstale(r *rng, n int) {
 				bx.Close() // X's connection dies; A fails
 				select {
 				case <-aDone:
-				case <-time.After(3 * time.Second):
+				case <-time.After(8 * time.Second):
 					hung = 1
 				}
 				select {
@@ -107,7 +107,7 @@ func runKstale(r *rng, n int) {
 						if e == nil && cPath == fid {
 							own = 1
 						}
-					case <-time.After(3 * time.Second):
+					case <-time.After(8 * time.Second):
 						hung = 1
 					}
 				}
